@@ -270,7 +270,7 @@ def build_driver():
     newest = max(os.path.getmtime(p) for p in srcs)
     if os.path.exists(drv) and os.path.getmtime(drv) >= newest:
         return drv
-    rc, out = coq_make(["theories/Model/All.vo", "theories/Model/Build.vo", "theories/Model/Fancy.vo", "theories/Model/Task.vo"])
+    rc, out = coq_make(["theories/Model/All.vo", "theories/Model/Build.vo", "theories/Model/Fancy.vo", "theories/Model/Task.vo", "theories/Model/Dumb.vo"])
     if rc != 0:
         raise RuntimeError("coq model build failed:\n" + out[-3000:])
     sh([os.path.join(VERIF, "ocaml", "build.sh")], check=True, timeout=1200)
@@ -312,7 +312,7 @@ def build_n2_binary():
 # line runners
 
 
-def run_lines(cmd, lines, timeout=1800, cwd=None):
+def run_lines(cmd, lines, timeout=1800, cwd=None, stall=60):
     """Feed `lines` to `cmd` (one case per line), return the list of result lines.
     If the process dies (abort), the offending case gets the result 'abort <rc>' and the
     run resumes after it."""
@@ -328,19 +328,54 @@ def run_lines(cmd, lines, timeout=1800, cwd=None):
             soft, hard = resource.getrlimit(resource.RLIMIT_STACK)
             want = 4 << 30
             resource.setrlimit(resource.RLIMIT_STACK, (want if hard == resource.RLIM_INFINITY else min(want, hard), hard))
+    import select, threading
+    deadline = time.time() + timeout
+    hangs = 0
     while start < n:
-        data = "\n".join(lines[start:]) + "\n"
-        p = subprocess.run(cmd, input=data, stdout=subprocess.PIPE, stderr=subprocess.PIPE,
-                           text=True, errors="replace", timeout=timeout, env=ENV, cwd=cwd, preexec_fn=pre)
-        out = p.stdout.split("\n")
-        if out and out[-1] == "":
-            out.pop()
-        results.extend(out)
+        data = ("\n".join(lines[start:]) + "\n").encode("utf-8", "replace")
+        p = subprocess.Popen(cmd, stdin=subprocess.PIPE, stdout=subprocess.PIPE, stderr=subprocess.DEVNULL, env=ENV, cwd=cwd, preexec_fn=pre)
+
+        def feed(proc=p, payload=data):
+            try:
+                proc.stdin.write(payload)
+                proc.stdin.close()
+            except (BrokenPipeError, OSError):
+                pass
+        th = threading.Thread(target=feed, daemon=True)
+        th.start()
+        buf, got, hung = b"", [], False
+        fd = p.stdout.fileno()
+        while True:
+            # a case that produces no result line for `stall` seconds is a hang (the implementation must terminate on every input)
+            r, _, _ = select.select([fd], [], [], min(stall, max(1, deadline - time.time())))
+            if not r:
+                hung = True
+                break
+            chunk = os.read(fd, 1 << 16)
+            if not chunk:
+                break
+            buf += chunk
+            if b"\n" in buf:
+                parts = buf.split(b"\n")
+                buf = parts.pop()
+                got.extend(x.decode("utf-8", "replace") for x in parts)
+        if hung:
+            p.kill()
+        p.wait()
+        p.stdout.close()
+        results.extend(got)
         if len(results) >= n:
             break
-        # died on case number len(results)
-        results.append("abort %d" % p.returncode)
+        # died (or hung) on case number len(results)
+        results.append("hang %ds without a result" % stall if hung else "abort %d" % p.returncode)
         start = len(results)
+        hangs += 1 if hung else 0
+        if hangs >= 2:
+            results.extend(["abort skipped (two earlier cases of this batch hung)"] * (n - len(results)))
+            break
+        if time.time() > deadline:
+            results.extend(["abort timeout"] * (n - len(results)))
+            break
     return results[:n]
 
 
